@@ -9,7 +9,11 @@ EXTENDS MC_Tokens, Lexer
 
 CONSTANT Order       \* "longest-first" (the implementation) | "shortest-first" (must be refuted) | "as-given"
 
-KindsStable == done => Kinds(Text(assign), assign, Order) = Kinds(Text(DefaultTok), DefaultTok, "longest-first")
+\* one pass per state: the kinds under the assignment are those under the default spellings, none is ILLEGAL, and they are exported
+KindsStable == done => LET k == Kinds(Text(assign), assign, Order) IN
+                        /\ k = Kinds(Text(DefaultTok), DefaultTok, "longest-first")
+                        /\ \A i \in 1..Len(k) : k[i] # "ILLEGAL"
+                        /\ PrintT(ToJson([assign |-> assign, text |-> Text(assign), kinds |-> k]))
+\* (for universes where stability is not claimed - two identifiers spelled alike - the kinds are only exported)
 ExportKinds == done => PrintT(ToJson([assign |-> assign, text |-> Text(assign), kinds |-> Kinds(Text(assign), assign, Order)]))
-NeverIllegal == done => \A i \in 1..Len(Kinds(Text(assign), assign, Order)) : Kinds(Text(assign), assign, Order)[i] # "ILLEGAL"
 =============================================================================
